@@ -277,6 +277,7 @@ struct World {
     quiet: bool, // do not record lines (scale mode)
     skipped: u64,
     raws: Vec<Vec<*const Node>>,
+    wraws: Vec<Vec<*const Node>>,
     detached: Vec<Option<Node>>,
     nclones: u32,
     clone_id: u32,
@@ -404,6 +405,8 @@ fn reset_world(w: &mut World) {
     w.std_on = std::env::var("HARNESS_STD").map(|v| v == "1").unwrap_or(false);
     w.raws.clear();
     w.raws.push(Vec::new());
+    w.wraws.clear();
+    w.wraws.push(Vec::new());
     w.detached.push(None);
     w.quiet = false;
     w.objs.clear();
@@ -753,6 +756,14 @@ fn exec(w: &mut World, op: &Op, in_dtor_of: Option<&Node>, dry: bool) -> Option<
                     lib(|| Rc::from(bx))
                 }
                 "from" => lib(|| Rc::from(n)),
+                "uninit" => lib(|| {
+                    let mut rc = Rc::<Node>::new_uninit();
+                    unsafe {
+                        Rc::get_mut_unchecked(&mut rc).as_mut_ptr().write(n);
+                        rc.assume_init()
+                    }
+                }),
+                "pin" => lib(|| unsafe { std::pin::Pin::into_inner_unchecked(Rc::pin(n)) }),
                 _ => lib(|| Rc::new(n)),
             };
             let addr = verif::rcbox_addr(&h);
@@ -775,6 +786,7 @@ fn exec(w: &mut World, op: &Op, in_dtor_of: Option<&Node>, dry: bool) -> Option<
             w.roots.push(vec![h]);
             w.wroots.push(Vec::new());
             w.raws.push(Vec::new());
+            w.wraws.push(Vec::new());
             w.detached.push(None);
             Some("ok".into())
         }
@@ -1110,6 +1122,7 @@ fn exec(w: &mut World, op: &Op, in_dtor_of: Option<&Node>, dry: bool) -> Option<
             w.roots.push(vec![h]);
             w.wroots.push(Vec::new());
             w.raws.push(Vec::new());
+            w.wraws.push(Vec::new());
             w.detached.push(None);
             Some(branch.into())
         }
@@ -1131,6 +1144,27 @@ fn exec(w: &mut World, op: &Op, in_dtor_of: Option<&Node>, dry: bool) -> Option<
             let p = w.raws[a as usize].pop()?;
             let h = lib(|| unsafe { Rc::from_raw(p) });
             w.roots[a as usize].push(h);
+            Some("ok".into())
+        }
+        "WeakIntoRaw" => {
+            if !made(w, a) || w.wroots[a as usize].is_empty() {
+                return None;
+            }
+            go!();
+            let h = w.wroots[a as usize].pop()?;
+            let same = h.as_ptr() as usize == w.objs[a as usize].vptr;
+            let p = lib(|| h.into_raw());
+            w.wraws[a as usize].push(p);
+            Some(if same && p as usize == w.objs[a as usize].vptr { "ok" } else { "badptr" }.into())
+        }
+        "WeakFromRaw" => {
+            if !made(w, a) || w.wraws[a as usize].is_empty() {
+                return None;
+            }
+            go!();
+            let p = w.wraws[a as usize].pop()?;
+            let h = lib(|| unsafe { Weak::from_raw(p) });
+            w.wroots[a as usize].push(h);
             Some("ok".into())
         }
         "IncStrong" => {
@@ -1447,7 +1481,7 @@ fn drive_script(rng: &mut SmallRng, len: usize, nobj: u32, profile: &str, script
     };
     let mix: &[&str] = if stdp {
         &["CloneRoot", "CloneStored", "DropRoot", "DropRoot", "Store", "Take", "DropStored", "New", "Downgrade", "Upgrade", "UpgradeStored",
-        "WeakClone", "WeakDrop", "StoreWeak", "TakeWeak", "Misc"]
+        "WeakClone", "WeakDrop", "StoreWeak", "TakeWeak", "Misc", "WeakIntoRaw", "WeakFromRaw"]
     } else if order {
         &["CloneRoot", "DropRoot", "DropRoot", "AdoptStore", "AdoptStore", "TakeUnadopt", "New", "Downgrade", "Upgrade", "AdoptSame",
         "UnadoptSame"]
@@ -1455,7 +1489,8 @@ fn drive_script(rng: &mut SmallRng, len: usize, nobj: u32, profile: &str, script
         &["CloneRoot", "CloneStored", "DropRoot", "DropRoot", "Store", "Take", "DropStored", "Adopt", "Unadopt", "AdoptSame",
         "UnadoptSame", "AdoptStore", "TakeUnadopt", "TakeUnadopt", "New"]
     };
-    let wk: &[&str] = &["Downgrade", "Downgrade", "Upgrade", "UpgradeStored", "WeakClone", "WeakDrop", "StoreWeak", "TakeWeak"];
+    let wk: &[&str] = &["Downgrade", "Downgrade", "Upgrade", "UpgradeStored", "WeakClone", "WeakDrop", "StoreWeak", "TakeWeak", "WeakIntoRaw",
+        "WeakFromRaw"];
     let tear: &[&str] = if stdp {
         &["DropRoot", "DropRoot", "DropRoot", "DropStored", "WeakDrop", "Upgrade", "DropDetached", "DecStrong", "FromRaw"]
     } else if order {
@@ -1502,7 +1537,7 @@ fn drive_script(rng: &mut SmallRng, len: usize, nobj: u32, profile: &str, script
         let b = if n == 0 { 0 } else { rng.gen_range(1..=n) };
         let mut d = Script { op: "none".into(), x: 0, y: 0 };
         if name == "New" && stdp {
-            let how = ["none", "none", "box", "from"][rng.gen_range(0..4)];
+            let how = ["none", "none", "box", "from", "uninit", "pin"][rng.gen_range(0..6)];
             d = Script { op: how.into(), x: 0, y: 0 };
         }
         if name == "New" && scripted < 2 && rng.gen_range(0..2) == 0 {
@@ -1523,7 +1558,7 @@ fn drive_script(rng: &mut SmallRng, len: usize, nobj: u32, profile: &str, script
         }
         let op = Op { op: name.to_string(), a: if name == "New" { n + 1 } else { a }, b: match name {
             "New" | "CloneRoot" | "DropRoot" | "AdoptSame" | "UnadoptSame" | "Downgrade" | "Upgrade" | "WeakClone" | "WeakDrop"
-            | "TryUnwrap" | "GetMut" | "MakeMut" | "MakeMutS" | "IntoRaw" | "FromRaw" | "IncStrong" | "DecStrong" | "DropDetached" | "Misc" => 0,
+            | "WeakIntoRaw" | "WeakFromRaw" | "TryUnwrap" | "GetMut" | "MakeMut" | "MakeMutS" | "IntoRaw" | "FromRaw" | "IncStrong" | "DecStrong" | "DropDetached" | "Misc" => 0,
             _ => b,
         }, d };
         if (name == "MakeMut" || name == "MakeMutS") && n >= nobj {
